@@ -271,6 +271,29 @@ Section StateKV.
                       && forallb (fun y => implb (bytes_eqb (H27 x) (H27 y)) (bytes_eqb x y)) (inputs a ++ probes a))
             (inputs a).
   Definition coll_free (st : state) : bool := forallb (fun sa => coll_free_acc (fst sa) (snd sa)) (st_delta st).
+
+  (* -------------------------------------------------------------------------------------------- *)
+  (* predicates of the statements (C17) *)
+
+  (* a value is shorter than 2^32 - 2 bytes: its length is no reserved prefix E4(2^32-1), E4(2^32-2) *)
+  Definition wf_val (v : bytes) : Prop := N.of_nat (length v) < 2 ^ 32 - 2.
+
+  (* well-formed account: the byte strings handed to the hash are pairwise different (different storage
+     keys, different preimage hashes, different lookup keys, and no lookup key whose length field makes
+     it literally equal to a storage or preimage key preimage), values of sane length *)
+  Definition wf_acc (a : account) : Prop := NoDup (inputs a) /\ Forall wf_val (values a).
+
+  (* well-formed state: service identifiers pairwise different and below 2^32, accounts well-formed *)
+  Definition wf_state (st : state) : Prop :=
+    NoDup (map fst (st_delta st)) /\ Forall (fun sa => fst sa < 2 ^ 32 /\ wf_acc (snd sa)) (st_delta st).
+
+  (* an explicit hash coincidence among the finitely many inputs of the state: an entry of service s
+     whose key C(s,x) looks like a component key or a service-information key (23 zero bytes of the
+     truncated hash), or two different inputs with the same 27-byte truncated hash *)
+  Definition coincidence (st : state) : Prop :=
+    exists s a x, In (s, a) (st_delta st) /\ In x (inputs a) /\
+      (reserved_shape (key_svc_hash s x) = true \/
+       exists y, In y (inputs a ++ probes a) /\ x <> y /\ H27 x = H27 y).
 End StateKV.
 
 (* the type parameters are implicit outside the section *)
@@ -289,3 +312,4 @@ Arguments finalize_acc {sinfo} zero_info {tslots}. Arguments finalize {comp} zer
 Arguments parse H {comp} dec_comp zero_comp {sinfo} dec_info zero_info {tslots}.
 Arguments inputs {sinfo tslots}. Arguments values {sinfo tslots}. Arguments probes H {sinfo tslots}.
 Arguments coll_free_acc H {sinfo tslots}. Arguments coll_free H {comp sinfo tslots}.
+Arguments wf_acc {sinfo tslots}. Arguments wf_state {comp sinfo tslots}. Arguments coincidence H {comp sinfo tslots}.
